@@ -254,6 +254,11 @@ Definition readable (raw : list frame) (D : disk) : bool :=
 (** a frame at or before step 0 and a frame after step n *)
 Definition covers (raw : list frame) (n : Z) : bool :=
   existsb (fun s => s <=? 0) (map fstep raw) && existsb (fun s => n <? s) (map fstep raw).
+(** physical layouts: the times of all frames in file order; all on the model time grid *)
+Definition layout_times (files : list (list record)) : list Z :=
+  map (fun r : record => fst (fst r)) (concat files).
+Definition on_grid (t : tk) (files : list (list record)) : bool :=
+  forallb (fun x => (x - start t) mod dt t =? 0) (layout_times files).
 (** every logged read hit the file and index that the tables give for the requested step *)
 Definition log_ok (raw : list frame) (l : list (Z * Z * Z)) : Prop :=
   Forall (fun e => match e with (s, f, i) =>
